@@ -245,6 +245,12 @@ def lexeme_grammars(tier):
     for n in range(1, (4 if quick else 6) + 1):
         for t in itertools.product(['\\\\', '\\"', "\\'", '"', "'", 'a'], repeat=n):
             yield ('pattern-quotes', f"start: /{''.join(t)}/ ;\n", ['', 'a'])
+    # capture groups that may or may not take part in the match (the matched text is chosen among the groups)
+    groups = ['(a)', '(a)?', '(b)*', '(?:(a)|(b))?', '(a|b)', '(-)?']
+    for g1 in groups:
+        for g2 in groups + ['']:
+            for tail in ('', 'c', 'c?', '\\d+(\\.\\d+)?'):
+                yield ('pattern-groups', f"start: /{g1}{g2}{tail}/ ;\n", ['', 'a', 'c', 'ac', 'ab', 'abc', 'b', '5', '-5.5', 'bb'])
     # literal look-alikes in constants
     for n in range(1, (5 if quick else 6) + 1):
         for t in itertools.product(['{', '}', '[]', ':', '1', ','], repeat=n):
